@@ -240,6 +240,38 @@ func runCrashCheck(t *testing.T, rep *mc.Reporter, check string, oracle func(scn
 		})
 		runFam("rekey", rk, 0)
 	}
+	if (fam == "" || fam == "gc") && check == "C07" {
+		// ---- family "gc": the tool's stale-checkpoint collector (cmd gcStaleCheckpoint, every
+		// staleCheckpointDuration/2) passes over the target while the sender lives: between any two stream
+		// events of a stream that switches databases, now or after an idle period longer than the stale
+		// duration; then a crash or an orderly stop anywhere, and the real restart. What the collector may
+		// remove is stale data of OTHER databases - the position a restart finds must not fall behind.
+		var gcs []crashScenario
+		gcAlpha, L, mcr, passes := []string{"w1", "s1", "s0"}, 4, 1, 1
+		if tier == "thorough" {
+			gcAlpha, L, mcr, passes = []string{"w1", "s1", "s0", "s2", "t1"}, 5, 2, 2
+		}
+		gcCfgs := []aofCfg{
+			{Txn: true, Resume: true, Pipeline: false, Count: 2, Bytes: 1 << 20, DbMode: "id"},
+			{Txn: false, Resume: true, Pipeline: false, Count: 2, Bytes: 1 << 20, DbMode: "shift"},
+			{Txn: true, Resume: true, Pipeline: true, Count: 64, Bytes: 1 << 20, DbMode: "map12"},
+		}
+		enumSeqs(gcAlpha, L, func(seq []string) {
+			sw := 0
+			for _, s := range seq {
+				if strings.HasPrefix(s, "s") {
+					sw++
+				}
+			}
+			if sw == 0 {
+				return // one database only: nothing but the newest entry exists
+			}
+			for _, cfg := range gcCfgs {
+				gcs = append(gcs, crashScenario{Syms: append([]string{"s0"}, seq...), Cfg: cfg, Max: 1, MaxCrashes: mcr, Stops: true, Gc: passes, NoCrash: tier != "thorough"})
+			}
+		})
+		runFam("gc", gcs, map[bool]int{false: 0, true: 1}[tier == "thorough"])
+	}
 	if fam == "" || fam == "soft" {
 		// ---- family "soft": in-process reconnections - after an orderly stop the SAME RedisOutput is asked for
 		// its start point and sent the stream again (what RedisInput.Run does when the source link drops);
@@ -563,6 +595,22 @@ func oracleC07(scn crashScenario, rec *crashRec) mc.Result {
 		r.Sig = "C07:" + r.Sig
 		r.Detail = map[string]interface{}{"detail": r.Detail, "history": rec.describe()}
 		return r
+	}
+	if scn.Gc > 0 {
+		// family "gc": a restart that finds no usable position (none, or one without a run id it knows)
+		// although an earlier run stored one and only the collector touched the target in between
+		for k := 1; k < len(rec.Runs); k++ {
+			rr := rec.Runs[k]
+			if !rr.FullSync || rr.BootErr != "" {
+				continue
+			}
+			for _, c := range rec.Cp {
+				if c.Run < k && c.Value >= aofS0 {
+					return mc.Violation("a restart found no usable resume position (full resynchronisation) although one was stored before and only the tool's own stale-checkpoint collector touched the target in between", fmt.Sprintf("C07:gc-position-lost:%s", cls),
+						map[string]interface{}{"stored": c.Value, "start_point": rr.StartPoint, "start_run_id": rr.StartRunId, "start_db": rr.StartDb, "run": k, "collector_passes": rec.Gcs, "history": rec.describe()})
+				}
+			}
+		}
 	}
 	last := int64(-1)
 	have := false
